@@ -1411,7 +1411,8 @@ namespace avel {
         auto should_offset = abs(frac) >= vec2x64f{0.5};
         auto ret = whole + keep(should_offset, offset);
 
-        return ret;
+        // the result carries the sign of the argument, also when it is zero (whole + 0.0 would turn -0.0 into +0.0)
+        return copysign(ret, v);
 
         #endif
 
